@@ -145,6 +145,16 @@ def _check_points(cols, args):
   with NoTracing():
     want = [int(w) if name == 'nsga2rank' else bool(w) for w in want]
     ok = got == want
+    # translation: an order type says nothing about signs, so it also stands for the same configuration moved into the
+    # negative orthant and across the origin (e.g. sign-flipped MINIMIZE metrics are all <= 0)
+    if ok:
+      base = _rep(rank_cols)
+      span = float(base.max() - base.min()) + 1.0 if base.size else 1.0
+      for shift in (-(span + 1.0), -span / 2.0, -float(base.max()) if base.size else 0.0):
+        if _run_optimal(name, base + shift) != want:
+          ok = False
+          reach('translated_variant_failed')
+          break
     # +-inf: an infinite coordinate is just the top / bottom element of that coordinate's order, so every order type
     # also stands for the point sets in which the largest values of a coordinate are +inf and/or the smallest are -inf.
     if ok and os.environ.get('VERIF_PARETO_INF', '1') == '1':
@@ -414,8 +424,27 @@ def _best_trials(kinds, vals1, vals2, goal2_min, single, args):
     if not [k for k in kinds if k != 2]:
       return True       # no completed trial at all: GetBestTrials on nothing is not part of the claim
     got = sorted(t.id for t in sup.GetBestTrials())
+    ok = got == want
+    # the study goes on: the still-ACTIVE trials are completed IN PLACE (the supporter holds them by reference, as the
+    # benchmark runner does) and the question is asked again -- the answer must reflect the new history
+    if ok and 2 in kinds and not (single and known(KF_BEST_TIES)):
+      for i in range(n):
+        if kinds[i] == 2:
+          m = {'m1': r1[i] * 1.5 - 2.0}
+          if not single:
+            m['m2'] = r2[i] * 1.5 - 2.0
+          trials[i].complete(vz.Measurement(m))
+      cand2 = [i for i in range(n) if kinds[i] in (0, 2)]
+      cols2 = [[vals1[i] for i in cand2]] if single else \
+          [[vals1[i] for i in cand2], [(-vals2[i] if goal2_min else vals2[i]) for i in cand2]]
+      opt2 = _oracle_optimal(cols2)
+      want2 = sorted(cand2[k] + 1 for k in range(len(cand2)) if opt2[k])
+      got2 = sorted(t.id for t in sup.GetBestTrials())
+      if not (single and len(want2) > 1 and known(KF_BEST_TIES)):
+        ok = got2 == want2
+        got, want = got2, want2
   reach('besttrials_single' if single else 'besttrials_multi')
-  return finish(got == want, args, obs=[got, want])
+  return finish(ok, args, obs=[got, want])
 
 
 def best_trials_safety(sa: int, sb: int, order: bool, x0: int, x1: int, x2: int) -> bool:
